@@ -612,6 +612,17 @@ def install(sim, fs=None):
             d["set"] = DetSet
             seams.add(f"{m.__name__}.set")
     CTX.set_salt = (getattr(sim, "seed", 0) or 0) % 5
+    # tuning knob: the read buffer of the streaming decompressors (64 MiB by default, far above any simulated chunk,
+    # so the "several reads per file" path would never run): per run the default or a tiny size
+    import strax.io as _sio
+    knobs = [f for f in (getattr(_sio, n, None) for n in ("_bz2_decompress", "_lz4_decompress", "_zstd_decompress"))
+             if f is not None and f.__defaults__ and len(f.__defaults__) == 1]
+    CTX.saved_defaults = [(f, f.__defaults__) for f in knobs]
+    size = (None, 7, 64, 1000)[((getattr(sim, "seed", 0) or 0) // 5) % 4]
+    if size is not None:
+        for f in knobs:
+            f.__defaults__ = (size,)
+    sim.counters["decompress_buffer_small"] = int(size is not None)
     CTX.saved = saved
     CTX.seams = sorted(seams)
     _threading.Thread.start = _canary_thread_start
@@ -625,6 +636,9 @@ def install(sim, fs=None):
 def uninstall():
     if not CTX.installed:
         return
+    for f, d in getattr(CTX, "saved_defaults", []):
+        f.__defaults__ = d
+    CTX.saved_defaults = []
     for m, k, v, had in reversed(CTX.saved):
         if had:
             vars(m)[k] = v
